@@ -104,4 +104,21 @@ def offsetTableOK (E : OffsetEnc) : Bool :=
   E.minCode < 256 && E.encT == (List.range 256).map (offsetEncode E.minCode) &&
     E.decT == (List.range 256).map (offsetDecode E.minCode)
 
+/-! ### the whole path from text, as the driver runs it -/
+
+/-- text → codes of the source alphabet → `as_encoded_array(·, target)` → text read with the target alphabet -/
+def retargetText (src tgt : List Nat) (s : Bytes) : Option Bytes :=
+  (specEncode src s).bind (fun d => (retargetFull src tgt d).bind (specDecode tgt))
+
+/-- text → codes of the source alphabet → `change_encoding(·, target)` → text read with the target alphabet -/
+def changeText (src tgt : List Nat) (s : Bytes) : Option Bytes :=
+  (specEncode src s).bind (fun d => (changeEncoding src tgt d).bind (specDecode tgt))
+
+/-- the ragged versions act on the flat data and keep the row lengths -/
+def retargetRows (src tgt : List Nat) (rows : List Bytes) : Option (List Bytes) :=
+  (retargetText src tgt rows.flatten).map (unflatten (rows.map List.length))
+
+def changeRows (src tgt : List Nat) (rows : List Bytes) : Option (List Bytes) :=
+  (changeText src tgt rows.flatten).map (unflatten (rows.map List.length))
+
 end C06
